@@ -266,7 +266,7 @@ def v_resolved_target(prog, comp, name, par):
         if st["k"] != "switch":
             return False, "name comparison not branched on"
         true_t, false_t = R.switch_targets_bool(st)
-        if ok_blocks & res.reach([true_t], avoid=eq_blocks):
+        if ok_blocks & res.reach_flags([true_t], avoid=eq_blocks):
             return False, f"resolver can return an element named `{lit}`"
     if prog.bodies[res.id].id in comp:
         return False, "resolver is itself part of the recursion"
